@@ -159,6 +159,7 @@ package diam
 //@     invariant [C04] at_boundary: 0 <= n && n & 3 == 0 && boundary(b, n) && n <= pad4s(len(b))
 //@     invariant [C04] count: len(g.AVP) == framecount(b, n)
 //@     invariant g_fresh: g != nil && fresh(g) && sameslice(b, data)
+//@     invariant own_list: cap(g.AVP) == 0 || fresh(g.AVP)
 //@   end
 //@   atcall DecodeAVP: [C01] members_resolved_in_the_message_application: ARG1 == application && ARG2 == dictionary
 //@ end
@@ -187,6 +188,7 @@ package diam
 //@   loop 0
 //@     invariant [C04] at_boundary: 0 <= n && n & 3 == 0 && boundary(b, n) && n <= pad4s(len(b))
 //@     invariant [C04] count: len(m.AVP) == len(old(m.AVP)) + framecount(b, n)
+//@     invariant in_place_or_new_array: grown(m.AVP, old(m.AVP))
 //@     invariant [C03] appended_so_far_decoded: forall i int :: len(old(m.AVP)) <= i && i < len(m.AVP) ==> m.AVP[i] != nil && fresh(m.AVP[i]) && m.AVP[i].Data != nil && printable(m.AVP[i].Data)
 //@   end
 //@   atcall DecodeAVP: [C01] resolved_in_the_message_application: ARG1 == m.Header.ApplicationID && ARG2 == (m.dictionary != nil ? m.dictionary : dict.Default)
